@@ -198,9 +198,12 @@ Restore ==
 \* specification only bounds:  ProofPos(B) \ StoredUpper  \subseteq  missing
 \* \subseteq  ProofPos(B) \ StoredLower;  given the stored set it is exact:
 \* missing = ProofPos(B) \ stored.
+\* wide configurations: request sets of one or two leaves (the forests are large)
+MissChoices == IF ~Wide THEN SUBSET live \ {{}} ELSE {B \in SUBSET live : Cardinality(B) \in 1..2}
+
 MissQ ==
   /\ "missq" \in Acts
-  /\ \E B \in SUBSET live \ {{}} :
+  /\ \E B \in MissChoices :
        LET nds  == Nodes(n, live)
            ord  == AscSeq(B)
            pp   == ProofPos(n, {PosOfIn(nds, b) : b \in B})
